@@ -130,7 +130,7 @@ def r_names(chk, P, tier):
 def r_flow(chk, P, tier):
     """no scanned field is dropped: the value of every value-returning scan call reaches a Parsed setter on every successful path"""
     from fmt_tables import scanned_value_flow
-    chk.rule("FLOW.scanned", "every value a format::scan function returned Ok for is handed to a Parsed setter on each successful path (no scanned field is silently dropped)", floor=15)
+    chk.rule("FLOW.scanned", "every value a format::scan function returned Ok for is handed to a Parsed setter on each successful path (no scanned field is silently dropped)", floor=9)
     for fn in ('format::parse::parse_internal',):
         rows = scanned_value_flow(P, fn)
         if not rows:
@@ -164,17 +164,41 @@ def r_sign_arms(chk, P, tier):
     chk.rule("SIB.sign_arms", "in parse_internal every scan::number call that follows an explicit sign (&s[1..]) has the same bounds (1, usize::MAX)", floor=2)
     fn = "format::parse::parse_internal"
     seen = {}
+
+    def sign_tested(p_):
+        """which sign characters this path has tested for and found ('+', '-')"""
+        found = set()
+        for c in p_.conds:
+            if c[0][0] != "switch":
+                continue
+            v = c[2]
+            if c[1][0] == "discr":
+                truth = v == 1 or (isinstance(v, tuple) and v[0] == "else" and 1 not in v[1])
+            else:
+                truth = (v != 0) if not isinstance(v, tuple) else (v[0] == "else" and 0 in v[1])
+            if not truth:
+                continue
+            r = repr(c[1])
+            for ch, code in (("+", 43), ("-", 45)):
+                if "('char', %d)" % code in r or "('const', '%s')" % ch in r:
+                    found.add(ch)
+        return found
     for p_ in Sym(P, fn).paths(max_paths=6000):
+        signs = sign_tested(p_)
         for c in p_.calls:
             if isinstance(c[1], str) and c[1] == "format::scan::number":
                 a0 = c[2][0]
-                after_sign = any(x[0] == "agg" and x[2] == "std::ops::RangeFrom" and const_of(x[4][0]) == 1 for x in walk_terms(a0))
-                if after_sign:
-                    seen[(c[3] if len(c) > 3 else None)] = (const_of(c[2][1]), const_of(c[2][2]))
+                after_sign = any(x[0] == "agg" and x[2] == "std::ops::RangeFrom" and const_of(x[4][0]) == 1 for x in walk_terms(a0)) or \
+                    any(is_call(x) and str(x[1]).endswith("strip_prefix") for x in walk_terms(a0))
+                if after_sign and signs:
+                    for ch in signs:
+                        seen[(ch, const_of(c[2][1]), const_of(c[2][2]))] = (const_of(c[2][1]), const_of(c[2][2]))
     if len(seen) < 2:
         raise AnchorLost("parse_internal: %d signed scan::number calls" % len(seen))
+    if {k[0] for k in seen} != {"+", "-"}:
+        raise AnchorLost("parse_internal: signed number arms found for %s" % sorted({k[0] for k in seen}))
     for k, (lo, hi) in sorted(seen.items(), key=lambda kv: str(kv[0])):
-        chk.expect(lo == 1 and hi == (1 << 64) - 1, "number after sign @%s" % (k[1] if isinstance(k, tuple) else k), "scan::number after an explicit sign is bounded by (%s, %s), expected (1, usize::MAX) in both sign arms" % (lo, hi), loc=P.loc(fn, k[1] if isinstance(k, tuple) else None))
+        chk.expect(lo == 1 and hi == (1 << 64) - 1, "number after '%s' (%s, %s)" % k, "scan::number after an explicit sign is bounded by (%s, %s), expected (1, usize::MAX) in both sign arms" % (lo, hi), loc=P.loc(fn))
 
 
 def r_own_ranges(chk, P, tier):
